@@ -156,7 +156,10 @@ func (d *docState) alloc() int {
 const maxObjs = 400
 
 // Generate builds the document described by spec.
-func Generate(spec DocSpec) *GenDoc {
+func Generate(spec DocSpec) *GenDoc { return GenerateHooked(spec, nil, nil) }
+
+// GenerateHooked is Generate with fault-injection hooks on the writer.
+func GenerateHooked(spec DocSpec, hook func(kind string, num int, o Obj) Obj, prevHook func(rev, xrefOff, prev int) int) *GenDoc {
 	r := sim.NewRand(spec.Seed)
 	st := Style{EOL: eolOf(spec.EOL), Tight: spec.Tight, Loose: spec.Loose, Comments: spec.Comments, HexPct: spec.HexPct,
 		NameEsc: spec.NameEsc, DictBreak: spec.DictBreak, OctalPct: 50}
@@ -177,6 +180,8 @@ func Generate(spec DocSpec) *GenDoc {
 	d.info = d.alloc()
 	infoRef := Ref{d.info, 0}
 	d.w = NewWriter(st, r.Split("writer"), Ref{d.catalog, 0}, &infoRef, maxObjs)
+	d.w.Hook = hook
+	d.w.PrevHook = prevHook
 
 	out := &GenDoc{Spec: spec}
 	set := map[int]Obj{}
